@@ -88,7 +88,8 @@ PROPS = {
     ),
     "C15": dict(
         functions=[SP + "StatisticalContinuumSampler.sample_from_continuum", SP + "AbstractContinuumSampler._has_been_init",
-                   SP + "StatisticalContinuumSampler._set_nb_units_information", SP + "StatisticalContinuumSampler._set_duration_information"]
+                   SP + "StatisticalContinuumSampler._set_nb_units_information", SP + "StatisticalContinuumSampler._set_duration_information",
+                   SP + "AbstractContinuumSampler.init_sampling#given", SP + "AbstractContinuumSampler.init_sampling#default"]
                   + [CT + "Continuum." + m for m in ("copy_flush", "add", "add_annotator", "__bool__")] + [CT + "Unit.__lt__"],
         lawtags=True,
         oracles=[SP + "StatisticalContinuumSampler.sample_from_continuum"],
@@ -109,17 +110,19 @@ PROPS = {
     ),
     "C16": dict(
         functions=[SP + "ShuffleContinuumSampler.sample_from_continuum", SP + "ShuffleContinuumSampler._remove_pivot_segment",
-                   SP + "AbstractContinuumSampler._has_been_init"] + [CT + "Continuum." + m for m in (
+                   SP + "AbstractContinuumSampler._has_been_init", CT + "Continuum.avg_length_unit",
+                   SP + "AbstractContinuumSampler.init_sampling#given", SP + "AbstractContinuumSampler.init_sampling#default",
+                   SP + "ShuffleContinuumSampler.init_sampling#given", SP + "ShuffleContinuumSampler.init_sampling#default"] + [CT + "Continuum." + m for m in (
             "copy_flush", "add", "add_annotator", "iter_annotator", "bounds", "__bool__")] + [CT + "Unit.__lt__"],
         oracles=[SP + "ShuffleContinuumSampler.sample_from_continuum"],
         bounded=[dict(oracle=SP + "ShuffleContinuumSampler.sample_from_continuum",
-                      what="_random_from_segments and Continuum.avg_length_unit are ASSUMED (RNG model; mean of positive durations), and the "
+                      what="_random_from_segments is ASSUMED (RNG model), and the "
                            "integer-pivot separation is a known finding: seeded draws from random grid continua (2..5 annotators, ground-truth "
                            "subsets, both pivot types, non-zero lower bounds, integer timestamps) with the pivots recorded from the harness: "
                            "every sampled annotator is the wrapped translation of one ground-truth annotator by its pivot, pivots within bounds, "
                            "whole numbers in int mode, pairwise >= avg unit length / 2 apart; reference unchanged"),
                  dict(oracle=SP + "ShuffleContinuumSampler._random_from_segments#assumed-contract",
-                      what="the two ASSUMED contracts clause by clause on the real code: _random_from_segments on random lists of positive-length "
+                      what="the ASSUMED contract clause by clause on the real code: _random_from_segments on random lists of positive-length "
                            "segments (incl. very short ones and integer timestamps), both pivot types: returns, float pivot within a segment, "
                            "int pivot a whole number; avg_length_unit > 0")],
         design_ref="DESIGN.md section 4 C16, appendix A.5",
@@ -132,7 +135,6 @@ PROPS = {
         trusted=S_COMMON + ["model: python lists (append / pop)", "model: pyannote Segment",
                             "model: random generators (support only); _random_from_segments assumed to return a point of one of the "
                             "given segments (float) / a whole number (int)",
-                            "Continuum.avg_length_unit assumed positive on a continuum with a valid unit",
                             "pt(x) = True: a trigger predicate for clauses quantified over real points"],
     ),
     "C03": dict(
@@ -264,7 +266,7 @@ PROPS = {
     "C19": dict(
         functions=[CS + "CorpusShufflingTool.corpus_from_reference#names", CS + "CorpusShufflingTool.corpus_from_reference#count",
                    CS + "CorpusShufflingTool.false_neg_shuffle", CS + "CorpusShufflingTool.shift_shuffle", CS + "CorpusShufflingTool.splits_shuffle", CS + "CorpusShufflingTool.corpus_shuffle#names",
-                   CS + "CorpusShufflingTool.__init__",
+                   CS + "CorpusShufflingTool.__init__", CT + "Continuum.avg_length_unit",
                    CT + "Continuum.__getitem__#annotator"]
                   + [CT + "Continuum." + m for m in ("__init__", "add", "remove", "iter_annotator", "annotators", "bounds")] + [CT + "Unit.__lt__"],
         oracles=[CS + "CorpusShufflingTool.corpus_shuffle"],
@@ -284,7 +286,7 @@ PROPS = {
                      "the amount of perturbation per magnitude (statistical)"],
         trusted=S_COMMON + ["model: random generators (support only)", "model: sortedcontainers / deepcopy / f-string with one integer hole",
                             "class constants SHIFT_FACTOR == 2, SPLIT_FACTOR == 2.5 (read from the class body, requires of the two shuffles)",
-                            "Continuum.avg_length_unit assumed positive on a continuum with a valid unit"],
+                            ],
     ),
     "C10": dict(
         functions=[CT + "Continuum.get_fast_alignment", AL + "Alignment.take_until_limit", CT + "_compute_fast_alignment_job",
